@@ -45,6 +45,7 @@ class Check:
         self.assumptions = []
         self.rule_texts = {}
         self.seed = int(os.environ.get("VERIF_SEED", "0") or 0)
+        self.config = "W"   # configuration whose facts are being analysed (thorough tier iterates over several)
 
     # ------------------------------------------------------------------ recording
     def rule(self, rid, text):
@@ -53,14 +54,20 @@ class Check:
     def ob(self, rule, inst, ok, detail="", site=None, nontrivial=True, sample=None):
         """one rule instance (obligation). key = rule + instance descriptor, never a line number."""
         key = "%s:%s" % (rule, inst)
+        if self.config != "W":
+            key = "%s@[%s]" % (key, self.config)
+            detail = "[configuration %s] %s" % (self.config, detail)
         self.obs.append({"rule": rule, "key": key, "ok": bool(ok), "detail": detail, "site": site,
                          "nontrivial": nontrivial})
         if sample is not None and len(self.samples) < 40:
             self.samples.append({"key": key, "ok": bool(ok), "site": site, "derived": sample})
         return ok
 
-    def floor(self, rule, what, count, minimum):
-        """fail closed when a rule matches fewer instances than were confirmed by hand"""
+    def floor(self, rule, what, count, minimum, other=1):
+        """fail closed when a rule matches fewer instances than were confirmed by hand (floors are counted on the
+        workspace configuration W; in the additional feature configurations of the thorough tier `other` applies)"""
+        if self.config != "W":
+            minimum = other
         ok = count >= minimum
         self.ob(rule, "floor(%s)" % what, ok,
                 "instances found=%d, confirmed floor=%d%s" % (count, minimum, "" if ok else "  -> UNDECIDED (anchor lost?)"),
